@@ -820,12 +820,16 @@ def check_view(run, exe, model, cases, scratch, fixflags="1 1"):
                         toks.append("w,%d" % nt if who == "p" else "o")
                         if who == "p":
                             vn = pn
+                            # (a state file identical to the previous one is not shown again by the controller: what the
+                            # reader sees of it stays what it was)
+                            toks.append("sv,%d" % (0 if rec["state_partial"] else 1))
             elif ev[0] == "pr":
                 # the controller presents the writer's files to the reader under fixed names: for the reader a restart of
                 # the writer with a new output prefix is a restart under the same names (new names: direct mode)
                 # (setup_output rewrites the list file and the registry record; what the reader sees of them is still what
                 # the controller shows)
-                toks += ["w,%d" % t["p"], "u,%d,0" % t["p"], "rv,%d" % rec["rv"], "lv,%d" % rec["lv"]]
+                toks += ["w,%d" % t["p"], "u,%d,0" % t["p"], "rv,%d" % rec["rv"], "lv,%d" % rec["lv"],
+                         "sv,%d" % (0 if rec["state_partial"] else 1)]
                 pn = vn = len(D["p"])
                 first["p"] = True
             elif ev[0] == "rr":
